@@ -35,6 +35,9 @@ def is_recursion(outcome):
     return outcome[0] == 'err' and outcome[1] == 'builtins.RecursionError'
 
 
+PREEMPT_TICK_CAP = 40000000
+
+
 class C18(Engine):
     property_id = 'C18'
     level = 'exploration'
@@ -111,6 +114,13 @@ class C18(Engine):
 
                 if codec in ('jer', 'xer', 'gser') and rng.random() < 0.3:
                     op['indent'] = rng.choice([1, 2, 4])
+
+                if codec in ('ber', 'der') and rng.random() < 0.25:
+                    # The framing helpers are decode calls on the shared
+                    # specification too.
+                    op['api'] = rng.choice(['decode_with_length',
+                                            'decode_with_length',
+                                            'decode_length'])
 
                 return op
 
@@ -284,7 +294,16 @@ class C18(Engine):
         for leader in (0, 1):
             follower = 1 - leader
 
-            for k in range(1, alone_ticks[leader] + 1):
+            points = range(1, alone_ticks[leader] + 1)
+
+            if len(points) * sum(alone_ticks) > PREEMPT_TICK_CAP:
+                # A sweep costs k * (ticks of both operations): for long
+                # operations a seeded sample of the pre-emption points.
+                keep = max(50, PREEMPT_TICK_CAP // sum(alone_ticks))
+                points = sorted(rng.sample(points, min(keep, len(points))))
+                result.stats['preempt-sweeps-sampled-not-exhaustive'] += 1
+
+            for k in points:
                 runs = [[leader, k], [follower, forever], [leader, forever]]
                 scheduler = sched.Scheduler(2, {'kind': 'explicit',
                                                 'runs': runs}, limit)
@@ -378,6 +397,16 @@ class C18(Engine):
             return (lambda: spec.encode(
                 type_name, value, check_types=op['check_types'],
                 check_constraints=op['check_constraints'], **kwargs), value)
+
+        api = op.get('api')
+
+        if api == 'decode_with_length':
+            return (lambda: spec.decode_with_length(
+                type_name, data,
+                check_constraints=op['check_constraints']), None)
+
+        if api == 'decode_length':
+            return (lambda: spec.decode_length(data), None)
 
         return (lambda: spec.decode(
             type_name, data,
